@@ -54,7 +54,14 @@ type Tx uint64
 
 const PoisonBit = uint64(1) << 63
 
+// ZeroTx is a transaction whose hash is the zero value of the hash type (applications exist where that is a
+// legitimate hash: the reference Tx64(0), the pinned tests' testTx(0)).  It is in no pool and in no proposal.
+const ZeroTx = Tx(0x5A45524F5A45524F)
+
 func (t Tx) Hash() H {
+	if t == ZeroTx {
+		return H{}
+	}
 	var b [10]byte
 	b[0], b[1] = 't', 'x'
 	binary.LittleEndian.PutUint64(b[2:], uint64(t))
